@@ -50,6 +50,9 @@ type Op struct {
 	U       *Upd   `json:"u,omitempty"`
 	Id      int    `json:"id,omitempty"`
 	InPlace bool   `json:"inplace,omitempty"`
+	// S selects the handle the op runs on once the history has forked (op "fork":
+	// handle 1 = handle 0's Copy(), and handle 0 stays alive); 0 before the fork
+	S int `json:"s,omitempty"`
 }
 
 type History struct {
@@ -298,9 +301,21 @@ func initSorted() {
 
 // ---- running one op on the implementation ---------------------------------
 
+// A world holds one handle, or two after a "fork": sts[1] = sts[0].Copy() with
+// sts[0] kept alive (both share the trie database, like a miner's working copy
+// and the chain's state).  st is the handle of the op being executed / generated.
 type world struct {
-	st *state.StateDB
-	db state.Database
+	st     *state.StateDB
+	db     state.Database
+	sts    [2]*state.StateDB
+	forked bool
+}
+
+func (w *world) side(o Op) int {
+	if w.forked && o.S == 1 {
+		return 1
+	}
+	return 0
 }
 
 func newWorld() *world {
@@ -309,7 +324,7 @@ func newWorld() *world {
 	if err != nil {
 		panic(err)
 	}
-	return &world{st, db}
+	return &world{st: st, db: db, sts: [2]*state.StateDB{st, nil}}
 }
 
 func (w *world) exec(o Op) (panicked bool, msg string) {
@@ -319,8 +334,18 @@ func (w *world) exec(o Op) (panicked bool, msg string) {
 			msg = fmt.Sprint(r)
 		}
 	}()
-	st := w.st
+	k := w.side(o)
+	st := w.sts[k]
+	w.st = st
+	set := func(n *state.StateDB) { w.sts[k] = n; w.st = n }
 	switch o.K {
+	case "fork":
+		if w.forked {
+			panic("harness: second fork")
+		}
+		c := w.sts[0].Copy()
+		w.sts[1] = c
+		w.forked = true
 	case "fund":
 		st.AddBalance(daddrs[o.D], big.NewInt(1))
 	case "create":
@@ -376,9 +401,9 @@ func (w *world) exec(o Op) (panicked bool, msg string) {
 		if err != nil {
 			panic("reopen: " + err.Error())
 		}
-		w.st = n
+		set(n)
 	case "copy":
-		w.st = st.Copy()
+		set(st.Copy())
 	case "list":
 		st.GetValidatorsForUpdate()
 	default:
@@ -577,6 +602,7 @@ type runResult struct {
 	panicked  bool
 	panicMsg  string
 	classes   map[string]bool
+	proj      []*History // the cases for the Coq model: the history itself, or one projection per handle
 }
 
 func disciplinedUpd(old *state.Validator, u *Upd) bool {
@@ -592,38 +618,96 @@ func disciplinedUpd(old *state.Validator, u *Upd) bool {
 	return bz(u.Token).Cmp(new(big.Int).Add(old.Token, dt)) == 0 && bz(u.Stake).Cmp(new(big.Int).Add(old.Stake, ds)) == 0
 }
 
+// sideState is the bookkeeping of one handle: the classification of its own
+// history and its projection (the ops that produced it, for the Coq model).
+type sideState struct {
+	class   string
+	undisc  bool
+	neg     bool
+	classes map[string]bool
+	revVj   map[int]int // valid revision ids
+	ops     []Op
+	hashes  []uint64
+	panic   bool
+	last    uint64 // hash of the last observation
+	seen    bool
+}
+
+func (s *sideState) clone() *sideState {
+	c := &sideState{class: s.class, undisc: s.undisc, neg: s.neg, classes: map[string]bool{}, revVj: map[int]int{}}
+	for k := range s.classes {
+		c.classes[k] = true
+	}
+	c.ops = append([]Op{}, s.ops...)
+	c.hashes = append([]uint64{}, s.hashes...)
+	return c
+}
+
 func run(h *History, keepRaw bool, trace func(i int, o Op, hs *hasher, c clause)) *runResult {
 	w := newWorld()
 	res := &runResult{classes: map[string]bool{}}
-	enter := func(c string) {
-		res.classes[c] = true
-		if res.class == "" {
-			res.class = c
-		}
-	}
-	revVj := map[int]int{} // valid revision ids
+	sides := []*sideState{{classes: map[string]bool{}, revVj: map[int]int{}}}
 	h.Hashes = nil
 	h.Panic = false
+	finish := func() *runResult {
+		for _, sd := range sides {
+			for c := range sd.classes {
+				res.classes[c] = true
+			}
+			if res.class == "" {
+				res.class = sd.class
+			}
+			res.undisc = res.undisc || sd.undisc
+			res.neg = res.neg || sd.neg
+		}
+		if len(sides) == 1 {
+			res.proj = []*History{h}
+		} else {
+			for k, sd := range sides {
+				full, _ := json.Marshal(h.Ops[:res.opsDone+boolInt(res.panicked)])
+				res.proj = append(res.proj, &History{Ops: sd.ops, Hashes: sd.hashes, Panic: sd.panic,
+					Comment: fmt.Sprintf("%s handle %d of forked history %s", h.Comment, k, full)})
+			}
+		}
+		return res
+	}
 	for i, o := range h.Ops {
-		st := w.st
+		k := w.side(o)
+		o.S = k
+		if o.K == "fork" {
+			k = 0
+		}
+		sd := sides[k]
+		st := w.sts[k]
+		enter := func(c string) {
+			sd.classes[c] = true
+			if sd.class == "" {
+				sd.class = c
+			}
+		}
+		if o.K == "fork" {
+			// the new handle inherits the history of handle 0 and continues it with a Copy
+			sd = sides[0].clone()
+			sides = append(sides, sd)
+		}
 		// classification on the pre-state
 		switch o.K {
 		case "create":
 			if bz(o.Token).Sign() < 0 || bz(o.Stake).Cmp(new(big.Int).Div(bz(o.Token), unit)) != 0 || o.Role < 1 || o.Role > 3 {
-				res.undisc = true
+				sd.undisc = true
 			}
 		case "update":
 			if old := peek(st, vaddrs[o.A]); old != nil && !disciplinedUpd(old, o.U) {
-				res.undisc = true
+				sd.undisc = true
 				if bz(o.U.Token).Sign() < 0 || bz(o.U.Stake).Sign() < 0 {
-					res.neg = true
+					sd.neg = true
 				}
 			}
 		case "remove":
 			// removing a validator that still holds delegations leaves the delegators pointing at nothing:
 			// callers must not do that (no business check in RemoveValidator)
 			if r := st.VerifC08Raw(vaddrs[o.A]); r.Present && !r.Deleted && len(r.Val.Delegations) > 0 {
-				res.undisc = true
+				sd.undisc = true
 			}
 		case "delegate":
 			if v := peek(st, vaddrs[o.A]); v != nil && bz(o.Amt).Sign() != 0 {
@@ -640,15 +724,15 @@ func run(h *History, keepRaw bool, trace func(i int, o Op, hs *hasher, c clause)
 					cur = new(big.Int)
 				}
 				if new(big.Int).Add(cur, bz(o.Amt)).Sign() < 0 {
-					res.undisc = true
-					res.neg = true
+					sd.undisc = true
+					sd.neg = true
 				}
 			}
 		case "revert":
-			if _, ok := revVj[o.Id]; !ok {
-				res.undisc = true // not a valid revision id
+			if _, ok := sd.revVj[o.Id]; !ok {
+				sd.undisc = true // not a valid revision id
 			}
-		case "copy":
+		case "copy", "fork":
 			// Copy adds every address of validatorObjectsDirty to the copy's index, removed validators included
 			_, _, _, _, dirty := st.VerifC08Counters()
 			jd := st.VerifC08JournalDirties()
@@ -665,58 +749,83 @@ func run(h *History, keepRaw bool, trace func(i int, o Op, hs *hasher, c clause)
 			}
 		}
 		_, vjBefore, _, nextBefore, _ := st.VerifC08Counters()
+		po := o
+		if o.K == "fork" {
+			po = Op{K: "copy"}
+		}
+		sd.ops = append(sd.ops, po)
 		p, msg := w.exec(o)
 		if p {
 			h.Panic = true
+			sd.panic = true
 			h.PanicAt = fmt.Sprintf("op %d (%s): %s", i, o.K, msg)
 			res.panicked = true
 			res.panicMsg = h.PanicAt
-			if res.class == "" && !res.undisc {
+			if sd.class == "" && !sd.undisc {
 				res.failures = append(res.failures, "panic: "+h.PanicAt)
 				res.failClass = append(res.failClass, "")
 			}
 			break
 		}
 		res.opsDone++
-		st = w.st
+		if o.K == "fork" {
+			k = 1
+		}
+		st = w.sts[k]
 		switch o.K {
 		case "snap":
-			revVj[nextBefore] = vjBefore
-		case "finalise", "root", "commit", "copy":
-			revVj = map[int]int{}
+			sd.revVj[nextBefore] = vjBefore
+		case "finalise", "root", "commit", "copy", "fork":
+			sd.revVj = map[int]int{}
 		case "revert":
-			for id := range revVj {
+			for id := range sd.revVj {
 				if id >= o.Id {
-					delete(revVj, id)
+					delete(sd.revVj, id)
 				}
 			}
 		}
 		hs := observe(st, keepRaw)
 		h.Hashes = append(h.Hashes, hs.h)
-		c := oracle(st)
-		if trace != nil {
-			trace(i, o, hs, c)
-		}
-		add := func(s string) {
-			if s != "" {
-				res.failures = append(res.failures, fmt.Sprintf("after op %d (%s): %s", i, o.K, s))
-				res.failClass = append(res.failClass, res.class)
+		sd.hashes = append(sd.hashes, hs.h)
+		sd.last, sd.seen = hs.h, true
+		// the property on every live handle, each judged by the classification of its own history
+		for j, sj := range sides {
+			c := oracle(w.sts[j])
+			where := ""
+			if len(sides) > 1 {
+				where = fmt.Sprintf(" [handle %d]", j)
+			}
+			if j == k && trace != nil {
+				trace(i, o, hs, c)
+			}
+			add := func(s string) {
+				if s != "" {
+					res.failures = append(res.failures, fmt.Sprintf("after op %d (%s on handle %d)%s: %s", i, o.K, k, where, s))
+					res.failClass = append(res.failClass, sj.class)
+				}
+			}
+			if j != k && sj.seen {
+				// a state and its copy are independent: an op on one handle must not change anything observable on the other
+				if ho := observe(w.sts[j], false); ho.h != sj.last {
+					res.failures = append(res.failures, fmt.Sprintf("after op %d (%s on handle %d): copy isolation: the observable state of handle %d changed", i, o.K, k, j))
+					res.failClass = append(res.failClass, "")
+				}
+			}
+			if c.neg && sj.undisc {
+				sj.neg = true // negative amounts emerged from undisciplined writes: clamped statistics are no longer sums
+			}
+			if !sj.neg {
+				add(c.stat)
+			}
+			add(c.index)
+			if !sj.undisc {
+				add(c.sums)
+				add(c.units)
+				add(c.links)
 			}
 		}
-		if c.neg && res.undisc {
-			res.neg = true // negative amounts emerged from undisciplined writes: clamped statistics are no longer sums
-		}
-		if !res.neg {
-			add(c.stat)
-		}
-		add(c.index)
-		if !res.undisc {
-			add(c.sums)
-			add(c.units)
-			add(c.links)
-		}
 	}
-	return res
+	return finish()
 }
 
 // ---- generation -------------------------------------------------------------
@@ -748,7 +857,60 @@ type genState struct {
 	revIds []int
 }
 
-func genHistory(r *vf.Rng, flavour int) *History {
+// delegatesTo tells whether delegator d is listed by validator v.
+func delegatesTo(v *state.Validator, d int) bool {
+	for _, df := range v.Delegations {
+		if df != nil && df.Delegator == daddrs[d] {
+			return true
+		}
+	}
+	return false
+}
+
+// pickNew returns a live validator of st that delegator d does not delegate to yet
+// (-1 if there is none): mode 0 = the first-sorting one, 1 = a random one, 2 = a random
+// one among those sorting after every validator d delegates to (the account's
+// list grows at its end), falling back to mode 1.
+func pickNew(r *vf.Rng, st *state.StateDB, d int, mode int) int {
+	var cand, after []int
+	last := int64(-1 << 62)
+	for a := 0; a < NV; a++ {
+		if v := peek(st, vaddrs[a]); v != nil && delegatesTo(v, d) && rk(vaddrs[a]) > last {
+			last = rk(vaddrs[a])
+		}
+	}
+	first := -1
+	for a := 0; a < NV; a++ {
+		v := peek(st, vaddrs[a])
+		if v == nil || delegatesTo(v, d) {
+			continue
+		}
+		cand = append(cand, a)
+		if rk(vaddrs[a]) > last {
+			after = append(after, a)
+		}
+		if first < 0 || rk(vaddrs[a]) < rk(vaddrs[first]) {
+			first = a
+		}
+	}
+	switch {
+	case len(cand) == 0:
+		return -1
+	case mode == 0:
+		return first
+	case mode == 2 && len(after) > 0:
+		return after[r.Intn(len(after))]
+	}
+	return cand[r.Intn(len(cand))]
+}
+
+// genHistory draws one history.  fork = the two-handle family: a build-up in which
+// one or two "focus" delegators collect delegations (lists with spare capacity,
+// objects dirty, so that Copy shares them), then op "fork" (Copy with both
+// handles kept alive), then ops interleaved on both handles that mostly add and
+// withdraw delegations of the focus delegators, new validators preferably sorting
+// after the listed ones, and finally Commit + reload of both handles.
+func genHistory(r *vf.Rng, flavour int, fork bool) *History {
 	h := &History{}
 	w := newWorld()
 	steps := 10 + r.Intn(25) + r.Heavy(100)
@@ -758,6 +920,26 @@ func genHistory(r *vf.Rng, flavour int) *History {
 		p, _ := w.exec(o)
 		return !p
 	}
+	var focus []int
+	forkAt, endAt := -1, -1
+	if fork {
+		focus = append(focus, r.Intn(ND))
+		if r.Chance(40) {
+			focus = append(focus, r.Intn(ND))
+		}
+		forkAt = ND + 4 + r.Intn(14)
+		steps = forkAt + 8 + r.Intn(30)
+		if r.Chance(75) {
+			endAt = steps
+			steps += 2 + r.Intn(6)
+		}
+	}
+	tryPush := func(o Op) bool { // false = the implementation panicked
+		if !allowFindings && !safeOp(w, h, o) {
+			return true
+		}
+		return push(o)
+	}
 	// prologue: fund most delegators, create a few validators
 	for d := 0; d < ND; d++ {
 		if r.Chance(80) || !allowFindings {
@@ -766,13 +948,117 @@ func genHistory(r *vf.Rng, flavour int) *History {
 			}
 		}
 	}
+	if fork {
+		// enough validators for the lists to grow
+		for a := 0; a < NV; a++ {
+			if r.Chance(85) {
+				t := new(big.Int).Mul(big.NewInt(int64(1+r.Intn(5))), unit)
+				if !push(Op{K: "create", A: a, Role: int64(1 + r.Intn(3)), Status: int64(r.Intn(2)), Token: t.String(), Stake: stakeOf(t).String()}) {
+					return h
+				}
+			}
+		}
+		forkAt += len(h.Ops) - ND
+		steps += len(h.Ops) - ND
+		if endAt >= 0 {
+			endAt += len(h.Ops) - ND
+		}
+	}
 	for len(h.Ops) < steps {
-		st := w.st
+		if fork && !w.forked && len(h.Ops) >= forkAt {
+			// last build-up: the focus delegators get one to three more delegations (mostly first-sorting
+			// validators first), sometimes one that is withdrawn again at once (a shrunk list keeps a spare slot)
+			okd := func(d int) bool { return allowFindings || w.sts[0].VerifC08Account(daddrs[d]).Present }
+			for _, d := range focus {
+				n := 1 + r.Intn(3)
+				plan := r.Intn(100)
+				if plan < 45 {
+					// grow the list to three entries: append leaves a fourth, unused slot behind them
+					n = 0
+					for a := 0; a < NV; a++ {
+						if v := peek(w.sts[0], vaddrs[a]); v != nil && delegatesTo(v, d) {
+							n++
+						}
+					}
+					n = 3 - n
+				}
+				for ; n > 0 && okd(d); n-- {
+					if a := pickNew(r, w.sts[0], d, r.Intn(4)/3); a >= 0 {
+						if !tryPush(Op{K: "delegate", A: a, D: d, Amt: new(big.Int).Add(amount(r), big.NewInt(1)).String()}) {
+							return h
+						}
+					}
+				}
+				if a := pickNew(r, w.sts[0], d, 2); a >= 0 && okd(d) && plan >= 45 && plan < 80 {
+					amt := new(big.Int).Add(amount(r), big.NewInt(1))
+					if !tryPush(Op{K: "delegate", A: a, D: d, Amt: amt.String()}) || !tryPush(Op{K: "delegate", A: a, D: d, Amt: new(big.Int).Neg(amt).String()}) {
+						return h
+					}
+				}
+			}
+			if r.Chance(25) {
+				if !tryPush(Op{K: []string{"root", "finalise", "snap"}[r.Intn(3)]}) {
+					return h
+				}
+			}
+			if !tryPush(Op{K: "fork"}) {
+				return h
+			}
+			if !w.forked { // the fork would enter a finding class here: go on with one handle
+				fork, endAt = false, -1
+				continue
+			}
+			// often both handles at once extend the list of a focus delegator at its end, by different validators if possible
+			if d := focus[r.Intn(len(focus))]; r.Chance(70) && okd(d) {
+				k0 := r.Intn(2)
+				a0 := pickNew(r, w.sts[k0], d, 2)
+				a1 := pickNew(r, w.sts[1-k0], d, 2)
+				for t := 0; t < 4 && a1 == a0; t++ {
+					a1 = pickNew(r, w.sts[1-k0], d, 2)
+				}
+				for j, a := range []int{a0, a1} {
+					if a >= 0 {
+						if !tryPush(Op{K: "delegate", A: a, D: d, S: (k0 + j) % 2, Amt: new(big.Int).Add(amount(r), big.NewInt(1)).String()}) {
+							return h
+						}
+					}
+				}
+			}
+			continue
+		}
+		if fork && endAt >= 0 && len(h.Ops) >= endAt {
+			endAt = -1
+			for _, k := range []int{r.Intn(2), 0, 1} {
+				if !tryPush(Op{K: "commit", S: k}) {
+					return h
+				}
+			}
+			continue
+		}
+		sd := 0
+		if w.forked {
+			sd = r.Intn(2)
+		}
+		st := w.sts[sd]
 		a := r.Intn(NV)
 		d := r.Intn(ND)
+		x := r.Intn(100)
+		if fork && (w.forked && r.Chance(70) || !w.forked && r.Chance(20)) {
+			d = focus[r.Intn(len(focus))]
+			if r.Chance(60) {
+				x = 50 // a delegation op
+				mode := r.Intn(2) // before the fork: first-sorting or any
+				if w.forked {
+					mode = 1 + r.Intn(2) // after it: any, or one that extends the list at its end
+				}
+				if n := pickNew(r, st, d, mode); n >= 0 && r.Chance(65) {
+					a = n
+				}
+			}
+		}
 		live := peek(st, vaddrs[a])
 		var o Op
-		switch x := r.Intn(100); {
+		switch {
 		case x < 14:
 			t := amount(r)
 			o = Op{K: "create", A: a, Role: int64(1 + r.Intn(3)), Status: int64(r.Intn(2)), Token: t.String(), Stake: stakeOf(t).String()}
@@ -898,6 +1184,7 @@ func genHistory(r *vf.Rng, flavour int) *History {
 		default:
 			o = Op{K: "remove", A: a}
 		}
+		o.S = sd
 		if !allowFindings {
 			// keep the history outside every finding class: test the op on a dry classification
 			if !safeOp(w, h, o) {
@@ -957,7 +1244,7 @@ func opCoq(o Op) string {
 		return "ORoot"
 	case "commit":
 		return "OCommitReload"
-	case "copy":
+	case "copy", "fork":
 		return "OCopy"
 	case "list":
 		return "OList"
@@ -1009,17 +1296,20 @@ func gen(seed uint64, n int, outDir, corpusDir string, flavour int) {
 	known := map[string]int{}
 	handle := func(h *History, tag string) {
 		rr := run(h, false, nil)
-		cases = append(cases, h)
-		key := caseCoq(h)
-		nontrivial := false
+		cases = append(cases, rr.proj...)
+		if len(rr.proj) > 1 {
+			res.Count("history:forked(two live handles)")
+		}
 		for _, o := range h.Ops {
 			res.Count("op:" + o.K)
-			if o.K == "create" || o.K == "delegate" || o.K == "update" {
-				nontrivial = true
-			}
 		}
-		if nontrivial {
-			distinct[key] = true
+		for _, pr := range rr.proj {
+			for _, o := range pr.Ops {
+				if o.K == "create" || o.K == "delegate" || o.K == "update" {
+					distinct[caseCoq(pr)] = true
+					break
+				}
+			}
 		}
 		res.Count("history:" + tag)
 		if rr.panicked {
@@ -1036,20 +1326,31 @@ func gen(seed uint64, n int, outDir, corpusDir string, flavour int) {
 		if rr.class == "" && !rr.undisc {
 			res.Count("class:none(disciplined)")
 		}
-		for i, f := range rr.failures {
-			cl := rr.failClass[i]
-			if cl == "" {
-				res.OracleHits = append(res.OracleHits, History{What: f, Ops: h.Ops[:rr.opsDone+boolInt(rr.panicked)], Comment: h.Comment})
-				res.Count("oracle:VIOLATION")
+		// a failure outside every listed class outranks the listed ones (two handles can be in different classes)
+		first := -1
+		for i := range rr.failures {
+			if rr.failClass[i] == "" {
+				first = i
 				break
 			}
-			// inside a listed finding class: reported under the stable key of the class (known_findings.json)
-			known[cl]++
-			if known[cl] <= 3 {
-				res.OracleHits = append(res.OracleHits, History{What: cl, Ops: h.Ops[:rr.opsDone+boolInt(rr.panicked)], Comment: f})
+		}
+		if first < 0 && len(rr.failures) > 0 {
+			first = 0
+		}
+		if first >= 0 {
+			f, cl := rr.failures[first], rr.failClass[first]
+			done := h.Ops[:rr.opsDone+boolInt(rr.panicked)]
+			if cl == "" {
+				res.OracleHits = append(res.OracleHits, History{What: f, Ops: done, Comment: h.Comment})
+				res.Count("oracle:VIOLATION")
+			} else {
+				// inside a listed finding class: reported under the stable key of the class (known_findings.json)
+				known[cl]++
+				if known[cl] <= 3 {
+					res.OracleHits = append(res.OracleHits, History{What: cl, Ops: done, Comment: f})
+				}
+				res.Count("oracle:known-finding:" + cl)
 			}
-			res.Count("oracle:known-finding:" + cl)
-			break
 		}
 	}
 	for _, h := range loadCorpus(corpusDir) {
@@ -1063,7 +1364,7 @@ func gen(seed uint64, n int, outDir, corpusDir string, flavour int) {
 		if flavour >= 0 {
 			fl = flavour
 		}
-		h := genHistory(r, fl)
+		h := genHistory(r, fl, r.Chance(30))
 		if len(h.Ops) == 0 {
 			continue
 		}
@@ -1081,7 +1382,7 @@ func gen(seed uint64, n int, outDir, corpusDir string, flavour int) {
 	vf.WriteFile(filepath.Join(outDir, "Cases.v"), sb.String())
 	res.Cases = len(cases)
 	res.Distinct = len(distinct)
-	res.Rule = "random histories of public StateDB calls (fund, CreateValidator, PartialCopy+UpdateValidator as deposit/withdraw/status/role/rewards/in-place/raw write, RemoveValidator, UpdateDelegation +/-, Snapshot, RevertToSnapshot, Finalise, IntermediateRoot, Commit+state.New, Copy, GetValidatorsForUpdate) over 6 validator keys and 6 delegator accounts, amounts at stake-unit boundaries; 55% of the histories stay inside the disciplined finding-free class, 45% are adversarial (finding classes, broken caller discipline, invalid roles/ids); a case is one history with the hash of the complete projected state (statistics, index, cached objects with slice length/capacity, trie records, delegator accounts, journal/revision counters) after every op; non-trivial = contains a create/update/delegate; distinct by full history"
+	res.Rule = "random histories of public StateDB calls (fund, CreateValidator, PartialCopy+UpdateValidator as deposit/withdraw/status/role/rewards/in-place/raw write, RemoveValidator, UpdateDelegation +/-, Snapshot, RevertToSnapshot, Finalise, IntermediateRoot, Commit+state.New, Copy, GetValidatorsForUpdate) over 6 validator keys and 6 delegator accounts, amounts at stake-unit boundaries; 30% of the histories fork (Copy with BOTH handles kept alive over the shared database: build-up of one or two focus delegators' lists to a length with a spare slot, ops interleaved on both handles that mostly add/withdraw delegations of the focus delegators with new validators sorting last, Commit+reload of both; after every op the property oracle runs on both handles and the idle handle's observation must not change; each handle is one case: its own projected history); 55% of the histories stay inside the disciplined finding-free class, 45% are adversarial (finding classes, broken caller discipline, invalid roles/ids); a case is one history with the hash of the complete projected state (statistics, index, cached objects with slice length/capacity, trie records, delegator accounts, journal/revision counters) after every op; non-trivial = contains a create/update/delegate; distinct by full history"
 	for i, c := range cases {
 		res.CaseDescs = append(res.CaseDescs, History{Ops: c.Ops, Comment: c.Comment})
 		if i < 3 {
@@ -1119,7 +1420,15 @@ func replay(file string, verbose bool) {
 	})
 	fmt.Printf("ops done %d/%d panic=%v %s\nfinding classes entered: %v, caller discipline broken: %v\n", rr.opsDone, len(h.Ops), rr.panicked, rr.panicMsg, rr.classes, rr.undisc)
 	if verbose {
-		fmt.Println(caseCoq(&h))
+		for _, pr := range rr.proj {
+			fmt.Println(caseCoq(pr))
+		}
+	}
+	for i := range rr.failures {
+		if rr.failClass[i] == "" {
+			rr.failures[0], rr.failClass[0] = rr.failures[i], ""
+			break
+		}
 	}
 	if len(rr.failures) > 0 {
 		cl := rr.failClass[0]
@@ -1127,6 +1436,9 @@ func replay(file string, verbose bool) {
 			cl = " [inside known finding class " + cl + "]"
 		}
 		fmt.Println("ORACLE VIOLATION:", rr.failures[0]+cl)
+		for i := 1; i < len(rr.failures) && i < 6; i++ {
+			fmt.Println("  also:", rr.failures[i])
+		}
 		os.Exit(1)
 	}
 	fmt.Println("property holds on this history")
